@@ -40,7 +40,7 @@ pub enum SetupPolicy {
 /// workload mix of a property's check (weights and menus the per-run swarm draws from)
 #[derive(Clone, Debug)]
 pub struct Mix {
-    pub families: [u32; 14],
+    pub families: [u32; 15],
     pub policies: [u32; 10],
     pub caps: &'static [usize],
     pub fan: &'static [f64],
@@ -91,7 +91,7 @@ impl Swarm {
         let (restart, fork) = if faults { (restart, fork) } else { (0.0, 0.0) };
         // the cage needs the two sides to shuffle and pass as early as possible
         // small clustered positions: expand whole turns exhaustively, starting at the first state
-        let dfs = if family == Family::TrapCluster || family == Family::Motif { 0.02 } else { dfs };
+        let dfs = if family == Family::TrapCluster || family == Family::Motif || family == Family::Confront { 0.02 } else { dfs };
         let policy = if family == Family::Cage && rng.chance(0.8) { [Policy::PassEarly, Policy::PassEarly] } else { [p0, p1] };
         Swarm { family, cap, fan, fan2, rt, restart, fork, snap: if fork > 0.0 { (fork * 2.0).min(0.5) } else { 0.0 }, dfs, policy, setup_policy: sp }
     }
@@ -353,7 +353,7 @@ impl Source for RandomSource {
         let fork_k = self.rng.next();
         let dfs = self.rng.chance(self.sw.dfs);
         // crafted small positions: always expand the whole first turn
-        let dfs = dfs || (self.steps == 1 && (self.sw.family == Family::TrapCluster || self.sw.family == Family::Motif));
+        let dfs = dfs || (self.steps == 1 && (self.sw.family == Family::TrapCluster || self.sw.family == Family::Motif || self.sw.family == Family::Confront));
         // a turn that starts from a position which already stood twice: the repetition rules are
         // about to bite somewhere in this turn's tree, so expand it (drawn always, used sometimes)
         let cycle_coin = self.rng.chance(0.015);
